@@ -53,7 +53,7 @@ struct Shared {
 
 fn seg_start(sh: &Shared, i: usize) {
     if sh.running[i].swap(true, Ordering::SeqCst) {
-        sh.fails.lock().unwrap().push(format!("body of c{i} is executed by two threads at once"));
+        sh.fails.lock().unwrap_or_else(|e| e.into_inner()).push(format!("body of c{i} is executed by two threads at once"));
     }
 }
 fn seg_end(sh: &Shared, i: usize) {
@@ -109,7 +109,7 @@ fn spawn_co(sh: &Arc<Shared>, i: usize, parent: Option<Coroutine>) {
         }
         .unwrap()
     };
-    sh.handles.lock().unwrap().push((i, h));
+    sh.handles.lock().unwrap_or_else(|e| e.into_inner()).push((i, h));
     sh.spawned.fetch_add(1, Ordering::SeqCst);
 }
 
@@ -210,13 +210,13 @@ pub fn build(rng: &mut Rng, tier: u32) -> LiveBuilt {
             // join everything that gets spawned (children appear while we wait)
             let mut joined = 0;
             while joined < n {
-                let next = sh.handles.lock().unwrap().pop();
+                let next = sh.handles.lock().unwrap_or_else(|e| e.into_inner()).pop();
                 match next {
                     Some((i, h)) => {
                         match h.join() {
                             Ok(v) if v == i * 7 + 1 => {}
-                            Ok(v) => sh.fails.lock().unwrap().push(format!("join of c{i} returned {v}")),
-                            Err(_) => sh.fails.lock().unwrap().push(format!("c{i} panicked")),
+                            Ok(v) => sh.fails.lock().unwrap_or_else(|e| e.into_inner()).push(format!("join of c{i} returned {v}")),
+                            Err(_) => sh.fails.lock().unwrap_or_else(|e| e.into_inner()).push(format!("c{i} panicked")),
                         }
                         joined += 1;
                     }
@@ -227,10 +227,10 @@ pub fn build(rng: &mut Rng, tier: u32) -> LiveBuilt {
             for i in 0..n {
                 let r = sh.ran[i].load(Ordering::SeqCst);
                 if r != 1 {
-                    sh.fails.lock().unwrap().push(format!("body of c{i} ran {r} times"));
+                    sh.fails.lock().unwrap_or_else(|e| e.into_inner()).push(format!("body of c{i} ran {r} times"));
                 }
             }
-            let r = sh.fails.lock().unwrap().clone();
+            let r = sh.fails.lock().unwrap_or_else(|e| e.into_inner()).clone();
             r
         }),
     }
